@@ -345,6 +345,35 @@ fn enumerate_faults(r: &HistResult, seed: u64, thorough: bool, out: &mut WorkerO
             }
         }
     }
+    // disk faults: every file write of every successful write() fails once (nothing written / torn), the read of every
+    // successful load_file fails once
+    let mut disk_cases = 0u64;
+    for (i, rec) in r.ops.iter().enumerate() {
+        let Some(op) = &rec.op else { continue };
+        if !(rec.ret.starts_with("Ok") && matches!(op.k, crate::ops::K::MWrite | crate::ops::K::MLoadFile)) {
+            continue;
+        }
+        let variants: Vec<usize> = if op.k == crate::ops::K::MWrite {
+            // at most 4 files per model in these workloads; a k beyond the number of writes simply does not fire
+            (1..=4usize).flat_map(|k| [k, k + 100 * (17 + 19 * k)]).collect()
+        } else {
+            vec![op.n | 2]
+        };
+        for n in variants {
+            let mut variant = op.clone();
+            variant.n = n;
+            let mut v_ops = ops[..i].to_vec();
+            v_ops.push((rec.label, variant));
+            let mut cfg = scripted_cfg("C11", seed, thorough, v_ops.clone(), &[], false);
+            cfg.check_from = i;
+            let rr = run_history(&cfg);
+            disk_cases += 1;
+            for v in &rr.violations {
+                out.add_scripted_violation(v, seed, &v_ops, &[]);
+            }
+        }
+    }
+    *out.extra.entry("disk_fault_variants".into()).or_default() += disk_cases;
     *out.extra.entry("ghost_positions_enumerated".into()).or_default() += cases;
     *out.extra.entry("ghost_positions_fired".into()).or_default() += fired;
     *out.extra.entry("calls_turned_into_error_by_a_ghost".into()).or_default() += turned_into_error;
